@@ -51,3 +51,19 @@ Print Assumptions C10_min_max_mean_right.
 Theorem C10_mean_std_left_grid n mu sd k : (3 <= n)%nat -> (k < n - 1)%nat ->
   nth k (fst (free_mean_std RN n mu sd)) 0 = mu - sd * sqrt (1 / (INR (Nat.max k 1) / INR n) - 1).
 Proof. intros H. exact (mean_std_left_nth n H mu sd k). Qed.
+
+(* range and median (free_min_max_median is generated from pbox_free.py on every run; pvals is the probability grid of the p-box):
+   on every step the bounds enclose the quantiles of every finite distribution on [mn, mx] of which med is a median *)
+Theorem C10_min_max_median_left pvals mn mx med ws xs l r k p q : mn <> mx -> dist_ok ws xs -> Forall (fun x => mn <= x <= mx) xs -> is_median ws xs med ->
+  free_min_max_median RN pvals mn mx med = Some (l, r) ->
+  (k < length pvals)%nat -> nth k pvals 0 <= p -> 0 < p -> p <> 1 / 2 -> p <= mass (fun x => Rleb x q) ws xs -> nth k l 0 <= q.
+Proof. intros Hne. exact (median_left_sound pvals mn mx med Hne ws xs l r k p q). Qed.
+Theorem C10_min_max_median_right pvals mn mx med ws xs l r k p q : mn <> mx -> dist_ok ws xs -> Forall (fun x => mn <= x <= mx) xs -> is_median ws xs med ->
+  free_min_max_median RN pvals mn mx med = Some (l, r) ->
+  (k < length pvals)%nat -> p <= nth k pvals 0 -> p < 1 -> mass (fun x => Rltb x q) ws xs <= p -> q <= nth k r 0.
+Proof. intros Hne. exact (median_right_sound pvals mn mx med Hne ws xs l r k p q). Qed.
+Theorem C10_min_max_median_ordered pvals mn mx med l r k : mn <> mx -> mn <= med <= mx ->
+  free_min_max_median RN pvals mn mx med = Some (l, r) -> (k < length pvals)%nat -> nth k l 0 <= nth k r 0.
+Proof. intros Hne. exact (median_ordered pvals mn mx med Hne l r k). Qed.
+Print Assumptions C10_min_max_median_left.
+Print Assumptions C10_min_max_median_right.
